@@ -225,6 +225,42 @@ impl World {
                     }
                 }
             }
+            TSpec::Slice { kind, boxed, members, poison } => {
+                let mut refs: Vec<&'static Leaf> = Vec::new();
+                for l in members {
+                    refs.push(self.leaf(*l).ok_or_else(|| BuildErr::Bad(format!("leaf {} has no slot", l)))?);
+                }
+                let dup = self.spec.has_dup(t);
+                use crate::shape::SNode;
+                let node = match (kind, boxed, poison) {
+                    (CollKind::Boxed, false, false) => BoxedLockCollection::try_new(refs).map(SNode::BoxedV),
+                    (CollKind::Boxed, true, false) => BoxedLockCollection::try_new(refs.into_boxed_slice()).map(SNode::BoxedB),
+                    (CollKind::Retry, false, false) => RetryingLockCollection::try_new(refs).map(|c| SNode::RetryV(Box::new(c))),
+                    (CollKind::Ref, true, false) => RefHolder::try_new(refs.into_boxed_slice()).map(SNode::RefB),
+                    (CollKind::Boxed, false, true) => BoxedLockCollection::try_new(refs).map(|c| SNode::PBoxedV(Box::new(Poisonable::new(c)))),
+                    (CollKind::Retry, true, true) => RetryingLockCollection::try_new(refs.into_boxed_slice()).map(|c| SNode::PRetryB(Box::new(Poisonable::new(c)))),
+                    _ => return Err(BuildErr::Bad(format!("no slice target for {:?} boxed={} poison={}", kind, boxed, poison))),
+                };
+                {
+                    let mut g = sched.lock();
+                    g.stats.dup_checks += 1;
+                    if dup {
+                        g.stats.dup_pos += 1;
+                    }
+                }
+                match (node, dup) {
+                    (Some(n), false) => Ok(Node::Slice(n)),
+                    (None, true) => Err(BuildErr::Rejected),
+                    (Some(_), true) => {
+                        sched.report(Clause::DupVerdict, format!("{:?} try_new accepted a list of references {:?} which contains a duplicate", kind, self.spec.elems(t)));
+                        Err(BuildErr::Rejected)
+                    }
+                    (None, false) => {
+                        sched.report(Clause::DupVerdict, format!("{:?} try_new rejected a duplicate-free list of references {:?}", kind, self.spec.elems(t)));
+                        Err(BuildErr::Rejected)
+                    }
+                }
+            }
             TSpec::Group { cont, members } => {
                 let mut ms = Vec::new();
                 for m in members {
